@@ -305,6 +305,39 @@ def run_cfg(chk, facts, cfg):
                     probs.append('no feasible path')
                 chk.ob('%s:errors:%s:%s%s' % (PID, nm, rname, sfx), 'E6 error-table', '%s::ci_mean with %s yields %s' % (nm, rname, want), not probs,
                        '; '.join(sorted(set(probs))[:3]), where, sample={'producer': nm, 'region': rname, 'feasible_paths': nfeas})
+    # ---- D4' a quantile outside (0,1) - NaN included - yields InvalidQuantile on every quantile entry point that takes one
+    qrows = [('q=NaN', const('nan')), ('q<=0', AV(None, Fraction(0))), ('q>=1', AV(Fraction(1), None))]
+    for qlabel, qfn, qnames, qidx in (('quantile::Stats::ci', facts.inherent('quantile::Stats', 'ci'), ['self', 'confidence', 'q'], 2),
+                                      ('quantile::ci_indices', facts.free_fn('quantile::ci_indices'), ['confidence', 'n', 'q'], 2),
+                                      ('quantile::ci_sorted_unchecked', facts.free_fn('quantile::ci_sorted_unchecked'), ['confidence', 'sorted', 'q'], 2)):
+        if not chk.anchor(qlabel + ' (quantile domain)' + sfx, qfn):
+            continue
+        where = facts.loc(qfn['id'])
+        try:
+            sx = Summarizer(facts, assume_no_overflow=False)
+            paths = sx.summarize(qfn['id'], arg_names=qnames)
+            chk.saw(facts, qfn, paths=len(paths))
+        except Unsupported as e:
+            chk.ob('%s:errors:%s%s' % (PID, qlabel, sfx), 'E6 error-table', qlabel, None, 'undecided: %s' % e, where)
+            continue
+        for rname, av in qrows:
+            env0 = base_env(sx, facts)
+            for name, ty in sx.symty.items():
+                if ty is not None and ty.get('k') == 'f64' and name.startswith('confidence.'):
+                    env0.ref[T.sym(name)] = LEVEL_RANGE
+            env0.ref[T.sym('q')] = av
+            probs, nfeas = [], 0
+            for p in paths:
+                if feasible(p.guard, env0) is None:
+                    continue
+                nfeas += 1
+                got = err_variant(facts, p.ret) if p.is_ret() else 'panic: %s' % (p.outcome[1][:50],)
+                if got != 'InvalidQuantile':
+                    probs.append('outcome %s' % (got or 'Ok',))
+            if not nfeas:
+                probs.append('no feasible path')
+            chk.ob('%s:errors:%s:%s%s' % (PID, qlabel, rname, sfx), 'E6 error-table', '%s with %s yields InvalidQuantile' % (qlabel, rname), not probs,
+                   '; '.join(sorted(set(probs))[:3]), where, sample={'entry': qlabel, 'region': rname, 'feasible_paths': nfeas})
     # ---- D5 unequal paired lengths => DifferentSampleSizes (trace rule over the `next` events of the two samples)
     n_lock = 0
     padt = [a for a in facts.raw['adts'] if a['path'].split('::')[-1] == 'Paired' and a.get('exported')]
